@@ -311,7 +311,7 @@ fn gen_msg(t: &mut Tape, focus: Focus, allow_big: bool) -> Msg {
         chunks,
         end: end.clone(),
         bad: if focus == Focus::Resets && t.chance(1, 12) { 1 + t.below(BAD_FIELDS.len()) as u8 } else { 0 },
-        watch_reset: focus == Focus::Faults && t.chance(1, 5),
+        watch_reset: (focus == Focus::Faults && t.chance(1, 5)) || (focus == Focus::Resets && t.chance(1, 8)),
         // (Resets focus: a reset of a message that is complete from the application's point of view but may still be
         // waiting for window)
         reset_after_end: if focus == Focus::Resets && end == EndKind::Clean && nch > 0 && t.chance(1, 6) { Some((t.below(30), if t.chance(3, 4) { t.below(14) as u32 } else { t.u32() })) } else { None },
@@ -781,6 +781,7 @@ async fn send_body(mut st: SendStream<SegBuf>, m: Msg, key: u32, side: Side, log
         // its own task (and task name): a reset wait on a stream that has finished sending
         let name = format!("{}-resetwatch-{}", if side == Side::Client { "c" } else { "s" }, key);
         let group = if side == Side::Client { Group::ClientApp } else { Group::ServerApp };
+        log.push(side, key, Api::ConnOp { op: "watch poll_reset".into() });
         sp.spawn(name, group, async move {
             // (the first poll happens under a different waker — a handle that was polled once where it was created and
             // then moved into its task: the waker of the latest poll is the one that counts)
